@@ -157,7 +157,7 @@ func makeStructInfo(name string, names []string, t reflect.Type) (info structInf
 // ReadStruct reads struct type.
 func (dec *Decoder) ReadStruct(t reflect.Type) {
 	name := dec.ReadSafeString()
-	count := dec.ReadInt()
+	count := dec.ReadCount()
 	names := make([]string, count)
 	for i := 0; i < count; i++ {
 		dec.decodeString(stringType, dec.NextByte(), &names[i])
